@@ -29,7 +29,9 @@ PartTextVal(tag, c, r, j) ==
   LET S == PartSchema[tag] IN
   CASE S.text = "vocab"  -> W(Pick(IF S.vocab = SwitchVocab THEN SwitchSeq ELSE StateSeq, r + j))
     [] S.text = "number" -> IF j = 2 /\ r = 0 /\ ClassIdx(c) % 3 = 0 THEN NoVal
-                            ELSE V(Pick(NumSeq, r + 2 * j + ClassIdx(c)), "n" \o ToString(j))
+                            ELSE LET cls == Pick(NumSeq, r + 2 * j + ClassIdx(c)) IN
+                                 \* the number 0 is one value, whichever element carries it
+                                 V(cls, IF cls = "numzero" THEN "zero" ELSE "n" \o ToString(j))
     [] S.text = "free"   -> IF (r + j) % 4 = 3 THEN NoVal
                             ELSE IF c = "longa" THEN V("longa", "t" \o ToString(j))
                             ELSE V(Pick(ClassSeq, ClassIdx(c) - 1 + j - 1), "t" \o ToString(j))
